@@ -811,3 +811,27 @@ Lemma null_short_complete_refuted_l :
     is_complete (get_offset_storage (field_bv Null root boff c) off w) w = true /\
     uint_read true (get_offset_storage (field_bv Null root boff c) off w) w = None.
 Proof. exists [7], 1%nat, 1%nat, 0, 4. split; [cbn; lia|]. split; reflexivity. Qed.
+
+(* ---------- [requires]: CouldWriteValue = representable && validator(value) ---------- *)
+Lemma uint_could_write_req_spec : forall vok argty w v, std_cty argty -> in_cty argty v -> 1 <= w <= 64 ->
+  uint_could_write_req vok argty w v = Some ((0 <=? v) && (v <? 2 ^ w) && vok v).
+Proof.
+  intros vok argty w v Ha Hv Hw. unfold uint_could_write_req. rewrite uint_could_write_spec by assumption. cbn [bind].
+  destruct ((0 <=? v) && (v <? 2 ^ w)) eqn:E; [|reflexivity]. cbn [andb].
+  assert (Hlw := lw_ge w ltac:(lia)). assert (2 ^ w <= 2 ^ lw w) by (apply pow2_le; lia).
+  rewrite wrap_id; [reflexivity|cbn [cbits uty]; lia|]. apply in_cty_unsigned; [reflexivity|]. cbn [cbits uty]. lia.
+Qed.
+
+Lemma int_could_write_req_spec : forall vok argty w v, std_cty argty -> in_cty argty v -> 1 <= w <= 64 ->
+  int_could_write_req vok argty w v = Some ((- 2 ^ (w - 1) <=? v) && (v <? 2 ^ (w - 1)) && vok v).
+Proof.
+  intros vok argty w v Ha Hv Hw. unfold int_could_write_req. rewrite int_could_write_spec by assumption. cbn [bind].
+  destruct ((- 2 ^ (w - 1) <=? v) && (v <? 2 ^ (w - 1))) eqn:E; [|reflexivity]. cbn [andb].
+  assert (Hlw := lw_ge w ltac:(lia)). assert (2 ^ (w - 1) <= 2 ^ (lw w - 1)) by (apply pow2_le; lia).
+  rewrite wrap_id; [reflexivity|cbn [cbits sty]; lia|]. unfold in_cty, cmin, cmax. cbn [csigned cbits sty]. lia.
+Qed.
+
+Lemma could_write_requires_l : forall vok argty w v, std_cty argty -> in_cty argty v -> 1 <= w <= 64 ->
+  uint_could_write_req vok argty w v = Some ((0 <=? v) && (v <? 2 ^ w) && vok v) /\
+  int_could_write_req vok argty w v = Some ((- 2 ^ (w - 1) <=? v) && (v <? 2 ^ (w - 1)) && vok v).
+Proof. intros; split; [apply uint_could_write_req_spec|apply int_could_write_req_spec]; assumption. Qed.
